@@ -135,8 +135,9 @@ theorem files_inj (fs gs : List FileE) (r1 r2 : Bytes) (hf : ∀ f ∈ fs, WFFil
 
 /-! ### Environment variables -/
 
+/-- `e.1 ≠ kwOvr` is the explicit hypothesis that excludes finding F1. -/
 def WFEnv (e : Bytes × Option Bytes) : Prop :=
-  NulFree e.1 ∧ (∀ w, e.2 = some w → NulFree w)
+  NulFree e.1 ∧ (∀ w, e.2 = some w → NulFree w) ∧ e.1 ≠ kwOvr
 
 def EnvTerm (r : Bytes) : Prop := ∃ t, r = 0 :: 1 :: (kwOvr ++ t) ∧ (t = [] ∨ ∃ u, t = 0 :: 1 :: u)
 
@@ -147,8 +148,7 @@ theorem envTerm_cont {r : Bytes} (h : EnvTerm r) : Cont r := by
   obtain ⟨t, rfl, _⟩ := h; exact cont_zero _
 
 theorem encEnv_append (e : Bytes × Option Bytes) (r : Bytes) :
-    encEnv e ++ r =
-      0 :: 2 :: 0 :: 1 :: (e.1 ++ (match e.2 with | some v => 0 :: 1 :: (v ++ r) | none => 0 :: 2 :: r)) := by
+    encEnv e ++ r = 0 :: 1 :: (e.1 ++ (match e.2 with | some v => 0 :: 1 :: (v ++ r) | none => 0 :: 2 :: r)) := by
   obtain ⟨n, v⟩ := e
   cases v <;> simp [encEnv, wStr, wNone]
 
@@ -165,7 +165,13 @@ theorem envterm_ne_env {r r' : Bytes} {g : Bytes × Option Bytes} (hr : EnvTerm 
     (h : r = encEnv g ++ r') : False := by
   rw [encEnv_append] at h
   obtain ⟨t, rfl, ht⟩ := hr
-  simp at h
+  simp only [List.cons.injEq, true_and] at h
+  have hc : Cont t := by
+    rcases ht with rfl | ⟨u, rfl⟩
+    · exact cont_nil
+    · exact cont_zero _
+  obtain ⟨hk, _⟩ := str_split kwOvr_nulFree hg.1 hc (cont_envval _ _) h
+  exact hg.2.2 hk.symm
 
 theorem envs_inj (es gs : List (Bytes × Option Bytes)) (r1 r2 : Bytes)
     (he : ∀ e ∈ es, WFEnv e) (hg : ∀ g ∈ gs, WFEnv g) (h1 : EnvTerm r1) (h2 : EnvTerm r2)
@@ -212,7 +218,7 @@ theorem envs_inj (es gs : List (Bytes × Option Bytes)) (r1 r2 : Bytes)
         | none => simp at h
         | some w =>
           simp only [List.cons.injEq, true_and] at h
-          obtain ⟨hv, h⟩ := str_split (hwe.2 v rfl) (hwg.2 w rfl) c1 c2 h
+          obtain ⟨hv, h⟩ := str_split (hwe.2.1 v rfl) (hwg.2.1 w rfl) c1 c2 h
           have := ih' h
           exact ⟨by rw [hv, this.1], this.2⟩
 
